@@ -31,11 +31,11 @@ pub fn count_spaces_after_last_newline(s: &str, i: usize) -> usize {
     if let Some((pos, newline)) = s[..i].char_indices().rfind(|(_, c)| typst_syntax::is_newline(*c)) {
         // Get the substring after the newline and up to position `i`
         let after_newline = &s[pos + newline.len_utf8()..i];
-        // Count the number of consecutive spaces in the substring
-        after_newline.chars().take_while(|&c| c == ' ').count()
+        // Count the number of consecutive blanks in the substring (Typst counts a tab as one column)
+        after_newline.chars().take_while(|&c| c == ' ' || c == '\t').count()
     } else {
         // No newline: the position is on the first line of the text
-        s[..i].chars().take_while(|&c| c == ' ').count()
+        s[..i].chars().take_while(|&c| c == ' ' || c == '\t').count()
     }
 }
 
